@@ -113,7 +113,7 @@ fn main() {
             eprintln!("MACHINERY: the checker's main thread panicked after reporting a violation; the violation stands");
             1
         } else {
-            eprintln!("MACHINERY: the checker's main thread panicked");
+            eprintln!("MACHINERY: the checker's main thread panicked: {}", det::take_panics().1.unwrap_or_default());
             2
         }
     });
